@@ -180,6 +180,43 @@ static std::string run_seq(int tk, const std::vector<Op> &ops) {
   return cx.result;
 }
 
+// ---- the value macros of jwt.h themselves (vlib/cmacros.c, compiled as C), used the way an application does: one jwt_value_t for a
+// read and then for a write derived from what was read - the macro's arguments refer to the struct the macro fills
+extern "C" { jwt_value_t *cm_set_int(jwt_value_t *, const char *, long); jwt_value_t *cm_set_str(jwt_value_t *, const char *, const char *); jwt_value_t *cm_set_bool(jwt_value_t *, const char *, int); jwt_value_t *cm_set_json(jwt_value_t *, const char *, const char *);
+  jwt_value_t *cm_get_int(jwt_value_t *, const char *); jwt_value_t *cm_get_str(jwt_value_t *, const char *); jwt_value_t *cm_get_bool(jwt_value_t *, const char *); jwt_value_t *cm_get_json(jwt_value_t *, const char *);
+  jwt_value_t *cm_set_int_self(jwt_value_t *, const char *, long); jwt_value_t *cm_set_bool_self_not(jwt_value_t *, const char *); jwt_value_t *cm_set_str_self(jwt_value_t *, const char *); jwt_value_t *cm_set_json_self(jwt_value_t *, const char *); jwt_value_t *cm_set_int_samename(jwt_value_t *, long); }
+static std::string macro_idioms(int which) {
+  jwt_builder_t *b = jwt_builder_new(); std::string r;
+  auto set = [&](jwt_value_t *v) { return which ? jwt_builder_claim_set(b, v) : jwt_builder_header_set(b, v); };
+  auto get = [&](jwt_value_t *v) { return which ? jwt_builder_claim_get(b, v) : jwt_builder_header_get(b, v); };
+  jwt_value_t v; memset(&v, 0xA5, sizeof v);
+  do {
+    cm_set_int(&v, "ver", 5); if (set(&v)) { r = "set-int-refused"; break; }
+    cm_get_int(&v, "ver"); if (get(&v) || v.int_val != 5) { r = "get-int-wrong"; break; }
+    cm_set_int_self(&v, "ver2", 1); if (set(&v)) { r = "set-int-derived-from-the-value-just-read:refused"; break; }
+    cm_get_int(&v, "ver2"); if (get(&v) || v.int_val != 6) { r = "set-int-derived-from-the-value-just-read:stored-wrong"; break; }
+    cm_get_int(&v, "ver"); get(&v); cm_set_int_samename(&v, 7); v.replace = 1; if (set(&v)) { r = "set-under-the-name-just-read:refused"; break; }
+    cm_get_int(&v, "ver"); if (get(&v) || v.int_val != 7) { r = "set-under-the-name-just-read:stored-wrong"; break; }
+    cm_set_bool(&v, "on", 0); if (set(&v)) { r = "set-bool-refused"; break; }
+    cm_get_bool(&v, "on"); if (get(&v) || v.bool_val != 0) { r = "get-bool-wrong"; break; }
+    cm_set_bool_self_not(&v, "on2"); if (set(&v)) { r = "set-bool-negation-of-the-value-just-read:refused"; break; }
+    cm_get_bool(&v, "on2"); if (get(&v) || v.bool_val != 1) { r = "set-bool-negation-of-the-value-just-read:stored-wrong"; break; }
+    cm_set_bool_self_not(&v, "on3"); if (set(&v)) { r = "set-bool-negation-of-the-value-just-read:refused"; break; }
+    cm_get_bool(&v, "on3"); if (get(&v) || v.bool_val != 0) { r = "set-bool-negation-of-the-value-just-read:stored-wrong"; break; }
+    cm_set_str(&v, "s", "x\xc3\xa9"); if (set(&v)) { r = "set-str-refused"; break; }
+    cm_get_str(&v, "s"); if (get(&v) || !v.str_val || strcmp(v.str_val, "x\xc3\xa9")) { r = "get-str-wrong"; break; }
+    cm_set_str_self(&v, "s2"); if (set(&v)) { r = "set-str-copy-of-the-value-just-read:refused"; break; }
+    cm_get_str(&v, "s2"); if (get(&v) || !v.str_val || strcmp(v.str_val, "x\xc3\xa9")) { r = "set-str-copy-of-the-value-just-read:stored-wrong"; break; }
+    cm_set_json(&v, "j", "{\"k\":[1,true]}"); if (set(&v)) { r = "set-json-refused"; break; }
+    cm_get_json(&v, "j"); if (get(&v) || !v.json_val) { r = "get-json-wrong"; break; }
+    char *txt = v.json_val; cm_set_json_self(&v, "j2"); int sr = set(&v); free(txt); if (sr) { r = "set-json-copy-of-the-value-just-read:refused"; break; }
+    cm_get_json(&v, "j2"); if (get(&v) || !v.json_val) { r = "set-json-copy-of-the-value-just-read:stored-wrong"; break; }
+    { J got = J::parse(v.json_val), want = J::parse("{\"k\":[1,true]}"); free(v.json_val); if (!jeq(got, want)) { r = "set-json-copy-of-the-value-just-read:stored-wrong"; break; } }
+  } while (0);
+  jwt_builder_free(b);
+  return r;
+}
+
 static int CUR_TK = 0; static const std::vector<Op> *CUR_OPS = nullptr;
 static std::string case_json(int tk, const std::vector<Op> &ops) {
   std::string s = "{\"target\":" + std::to_string(tk) + ",\"ops\":[";
@@ -213,12 +250,15 @@ int main(int argc, char **argv) {
   Stats &st = stats();
   if (!a.replay.empty()) {
     J j = J::parse(read_file(a.replay)); if (!j) return 2;
+    if (json_object_get(j.p, "kind")) { std::string r = macro_idioms((int)json_integer_value(json_object_get(j.p, "which"))); if (!r.empty()) fprintf(stderr, "replay: %s\n", r.c_str()); return r.empty() ? 0 : 3; }
     std::vector<Op> ops; size_t i; json_t *e;
     json_array_foreach(json_object_get(j.p, "ops"), i, e) { Op o; o.t = (int)json_integer_value(json_array_get(e, 0)); o.vt = (int)json_integer_value(json_array_get(e, 1)); o.name = (int)json_integer_value(json_array_get(e, 2)); o.val = (int)json_integer_value(json_array_get(e, 3)); o.rep = (int)json_integer_value(json_array_get(e, 4)); ops.push_back(o); }
     int tk = (int)json_integer_value(json_object_get(j.p, "target"));
     std::string r = run_seq(tk, ops); if (!r.empty()) fprintf(stderr, "replay: %s | %s\n", r.c_str(), TRACE.c_str());
     return r.empty() ? 0 : 3;
   }
+  for (int which = 0; which < 2; which++) if (a.worker == which % a.nworkers) { std::string r = macro_idioms(which); st.evaluations++; st.cls("jwt.h-macro-idioms(read-then-write-through-one-jwt_value_t)"); st.nontrivial(mix(fnv("macro"), which));
+    if (!r.empty()) { st.violation("C15:macro:" + r, std::string("jwt.h value macros, ") + (which ? "claims" : "headers") + ": " + r, "{\"kind\":\"macro-idioms\",\"which\":" + std::to_string(which) + "}"); return finish(); } }
   // ---- exhaustive: all sequences up to length L over a fixed alphabet
   std::vector<Op> A = {
     {T_SET, 1, 0, 1, 0}, {T_SET, 1, 0, 3, 1}, {T_SET, 2, 0, 0, 0}, {T_SET, 2, 0, 2, 1}, {T_SET, 3, 0, 1, 0}, {T_SET, 3, 1, 0, 1}, {T_SET, 4, 0, 0, 0}, {T_SET, 4, 0, 1, 1},
